@@ -887,6 +887,12 @@ func (x *Exec) bitnot(t types.Type, a string) string {
 		return app("bvnot", a)
 	}
 	fn := x.vc.Fun("bit.not", []string{"Int"}, "Int")
+	if !x.vc.seen["axiom:and-not"] {
+		// the one algebraic fact integer-mode code relies on: x & ^x == 0
+		x.vc.seen["axiom:and-not"] = true
+		and := x.vc.Fun("bit.band", []string{"Int", "Int"}, "Int")
+		x.vc.FactFor(fn, "(forall ((bx Int)) (= ("+and+" bx ("+fn+" bx)) 0))")
+	}
 	return app(fn, a)
 }
 
